@@ -90,6 +90,8 @@ PROV_ATTR_NAMES = [("P", l, Q("prov")) for l in ("type", "label", "value", "loca
 XSD_ATTR_NAME = ("X", "maxLength", Q("xsd"))
 # a name in the PROV namespace that is not one of PROV-DM's attributes (its local part resembles the time attributes)
 PROV_OTHER_ATTR_NAME = ("P", "generatedAtTime", Q("prov"))
+# an attribute name in the third namespace the library pre-binds (xsi)
+XSI_ATTR_NAME = ("XI", "note", Q("xsi"))
 # a non-ASCII (but NCName) attribute-name local part
 NONASCII_ATTR_NAME = ("A", "cl\u00e9_\u6f22", Q("ex"))
 # values that compare equal in Python but differ in kind, placed on DIFFERENT records / attributes
@@ -124,6 +126,8 @@ def extras(tier, which, spelling, urikey):
             out.append((("at", NONASCII_ATTR_NAME, v),))
         for v in values.VALUES:
             out.append((("at", PROV_OTHER_ATTR_NAME, v),))
+        for v in ("s_a", "i_2", "q_exA", "l_exdt"):
+            out.append((("at", XSI_ATTR_NAME, v),))
         # PROV-DM argument names as additional attributes (of record kinds that may not have that argument)
         for l in ("activity", "agent", "plan", "entity", "starter", "generation"):
             for v in ("q_exA", "q_exB"):
